@@ -72,6 +72,8 @@ class MInfo:
         self.modifies = False   # may assign fields of self
         self.notes = []         # arithmetic side conditions that are not enforced
         self.fallible = True    # returns a Result
+        self.outparams = []     # [(rust name, type)]
+        self.outbufs = []
         self.blockref = False   # the Ok value is a reference to the cache block
 
 
@@ -79,12 +81,31 @@ class MCtx(Ctx):
     def __init__(self, what, impl):
         super().__init__(what, impl)
         self.record = None          # RECORDS entry when `self` is a state record
-        self.ret_ok = lambda t: f"(pure {t})"
+        self.loop_wrap = False      # inside a loop that can end the function: results are `Except.error ..`
+        self.outparams = []         # [(rust name, lean name)] `&mut` parameters of Copy tuple type: returned on every exit
+        self.outbufs = []           # [(rust name, lean name)] `&mut [u8]` parameters: returned with `Ok(..)`
         self.loop = None            # dict(brk=fn(env)->text, cont=fn(env)->text) inside a loop body
         self.info = None
         self.cache_param = None     # name of the `&mut BlockCache<D>` parameter
         self.fn_params = []         # [(rust name, lean name, type)] of the function, for loop definitions
         self.loop_depth = 0
+
+
+def _ret_raw(ctx, t):
+    return f"(pure (Except.error {t}))" if ctx.loop_wrap else f"(pure {t})"
+
+
+def _okval(ctx, t):
+    if ctx.outbufs:
+        t = "(" + ", ".join([t] + [ln for _n, ln in ctx.outbufs]) + ")"
+    if ctx.outparams:
+        ps = ", ".join(ln for _n, ln in ctx.outparams)
+        t = f"(({ps}), Res.ok {t})" if len(ctx.outparams) > 1 else f"({ps}, Res.ok {t})"
+    return t
+
+
+MCtx.ret_raw = _ret_raw
+MCtx.ret_ok = lambda ctx, t: _ret_raw(ctx, _okval(ctx, t))
 
 
 def simple(s):
@@ -109,6 +130,16 @@ class MTrans(Full):
         self.mdone = {}
         self.morder = []
         self.m_in_progress = set()
+        self.div_ok = set()     # ids of division nodes whose zero check has been emitted
+        self.div_keep = []
+
+    def tr_bin(self, e, env, ctx):
+        if e[1] in ("/", "%") and isinstance(ctx, MCtx) and id(e) not in self.div_ok:
+            b = self.tr(e[3], env, ctx)
+            if b.const is None:
+                raise ShapeError(f"{ctx.what}: a division by a non-constant is translated only as `let x = a {e[1]} b;` "
+                                 "with plain operands (the place of its panic must be evident)")
+        return super().tr_bin(e, env, ctx)
 
     # ------------------------------------------------------------------ record-mode self (pure parts)
     def rec_field(self, name, ctx):
@@ -276,6 +307,21 @@ class MStmts:
     # ------------------------------------------------------------------ small helpers
     def bind(self, m, var, rest):
         return f"({m} >>= fun {var} => {rest})"
+
+    def ret_err(self, err, ctx):
+        if ctx.outparams:
+            ps = ", ".join(ln for _n, ln in ctx.outparams)
+            return ctx.ret_raw(f"({ps}, Res.err {err})")
+        return f"({self.mon}.fail {err})"
+
+    def mtry(self, m, var, rest, ctx):
+        """`let var = m?; rest`"""
+        if not ctx.outparams:
+            return self.bind(m, var, rest)
+        r, e, p = self.tmp(), self.tmp(), self.tmp()
+        return self.bind(f"({self.mon}.attempt {m})", r,
+                         f"(match {r} with | Res.ok {var} => {rest} | Res.err {e} => {self.ret_err(e, ctx)} "
+                         f"| Res.panic {p} => {self.mon}.panic {p} | Res.diverged => {self.mon}.diverge)")
 
     def refetch(self, ctx, rest):
         if ctx.record is None:
@@ -489,7 +535,10 @@ class MStmts:
                 if p[1] != case[1]:
                     raise ShapeError(f"{ctx.what}: the arms bind the payload under different names "
                                      f"(`{p[1]}` / `{case[1]}`): outside the subset")
-                env2[p[1]] = ("val", lname(p[1]), case[2])
+                if case[2] == ("blockref",):
+                    env2[p[1]] = ("cacheblk", lname(p[1]))
+                else:
+                    env2[p[1]] = ("val", lname(p[1]), case[2])
                 return env2
             if p[0] == "pwild" or (p[0] == "ptuple" and not p[1] and not p[2]):
                 return env2
@@ -548,8 +597,12 @@ class MStmts:
     def outcome_cases(self, rlean, okty, arms, env, ctx, leaf):
         """match on an attempted outcome `r : Res τ`"""
         nm = self.payload_name(arms, "Ok") or self.tmp()
-        out = [f"| Res.ok {lname(nm) if self.res(okty) != ('unit',) or self.payload_name(arms, 'Ok') else '_'} => "
-               + self.render_tree(self.resolve(arms, ("ok", nm, okty), env, ctx), leaf)]
+        if okty == ("blockref",):
+            out = ["| Res.ok _ => " + self.bind(self.cache_blk, lname(nm),
+                                               self.render_tree(self.resolve(arms, ("ok", nm, okty), env, ctx), leaf))]
+        else:
+            out = [f"| Res.ok {lname(nm) if self.res(okty) != ('unit',) or self.payload_name(arms, 'Ok') else '_'} => "
+                   + self.render_tree(self.resolve(arms, ("ok", nm, okty), env, ctx), leaf)]
         for vn in self.err_variants(arms):
             out.append(f"| Res.err Err.{vn} => " + self.render_tree(self.resolve(arms, ("err", vn, None), env, ctx), leaf))
         ev = self.tmp()
@@ -646,18 +699,20 @@ class MFlow:
                 raise ShapeError(f"{ctx.what}: Ok(..) in a function that does not return a Result")
             return ctx.ret_ok(self.mvalue(e[2][0], env, ctx))
         if is_err_ctor(e):
-            return f"({self.mon}.fail {self.err_of(e[2][0], env, ctx)})"
+            return self.ret_err(self.err_of(e[2][0], env, ctx), ctx)
         cls = self.mclass(e, env, ctx)
         if cls[0] in ("m", "mi"):
-            if ctx.loop is None:
+            if ctx.loop is None and not ctx.outparams and not ctx.outbufs:
                 return cls[1]
             t = self.tmp()
+            if cls[0] == "m":
+                return self.mtry(cls[1], t, ctx.ret_ok("()" if cls[3] else t), ctx)
             return self.bind(cls[1], t, ctx.ret_ok("()" if cls[3] else t))
         if cls[0] == "res":
-            if ctx.loop is None:
+            if ctx.loop is None and not ctx.outparams and not ctx.outbufs:
                 return f"({self.mon}.lift {cls[1]})"
             t = self.tmp()
-            return self.bind(f"({self.mon}.lift {cls[1]})", t, ctx.ret_ok(t))
+            return self.mtry(f"({self.mon}.lift {cls[1]})", t, ctx.ret_ok(t), ctx)
         if k in ("if", "iflet", "match"):
             return self.branching(e, env, ctx, lambda b, envb: self.mreturn_block(b, envb, ctx))
         if k == "block":
@@ -708,9 +763,12 @@ class MFlow:
             pieces = [f"| {ctor} => {leaf(body, env2)}" for ctor, env2, body in self.enum_arms(ef, arms, env, ctx)]
             return f"(match {ctx.record['var']}.{ef['tag']} with " + " ".join(pieces) + ")"
         cls = self.mclass(scrut, env, ctx)
+        if cls[0] == "mo":
+            return self.mo_call(cls, env, ctx, lambda r, env2: self.outcome_cases(r, cls[2], arms, env2, ctx, leaf))
         if cls[0] == "m":
             r = self.tmp()
-            return self.bind(f"({self.mon}.attempt {cls[1]})", r, self.outcome_cases(r, cls[2], arms, env, ctx, leaf))
+            okty = ("blockref",) if cls[3] else cls[2]
+            return self.bind(f"({self.mon}.attempt {cls[1]})", r, self.outcome_cases(r, okty, arms, env, ctx, leaf))
         if cls[0] == "res":
             return self.outcome_cases(cls[1], cls[2], arms, env, ctx, leaf)
         if cls[0] == "mi":
@@ -764,6 +822,20 @@ class MFlow:
                     raise ShapeError(f"{ctx.what}: unreachable match arms after an irrefutable pattern")
                 out += f"if {cond} then {text} else "
         return f"({pre}{out})"
+
+    def mo_call(self, cls, env, ctx, use):
+        """a call that hands back `&mut` arguments: bind the pair, rebind the caller's variables, then
+        use(result text : Res .., env)"""
+        p = self.tmp()
+        vars_ = cls[4]
+        binds = ""
+        if len(vars_) == 1:
+            binds = f"let {env[vars_[0]][1]} := {p}.1; "
+        else:
+            for i, v in enumerate(vars_):
+                proj = ".1" + ".2" * i + (".1" if i < len(vars_) - 1 else "")
+                binds += f"let {env[v][1]} := {p}{proj}; "
+        return self.bind(cls[1], p, f"({binds}{use(p + '.2', env)})")
 
     # ------------------------------------------------------------------ statements
     def tuple_m(self, names, env):
@@ -847,10 +919,12 @@ class MFlow:
             return f"({v.lean})"
         if e[0] == "try":
             cls = self.mclass(e[1], env, ctx)
-            if cls[0] in ("m", "mi"):
+            if cls[0] == "m":
+                return self.mtry(cls[1], "_", cont(env), ctx)
+            if cls[0] == "mi":
                 return self.bind(cls[1], "_", cont(env))
             if cls[0] == "res":
-                return self.bind(f"({self.mon}.lift {cls[1]})", "_", cont(env))
+                return self.mtry(f"({self.mon}.lift {cls[1]})", "_", cont(env), ctx)
             raise ShapeError(f"{ctx.what}: `?` on a pure value as a statement is outside the subset")
         if e[0] in ("if", "iflet", "match"):
             return self.st_mbranch(e, env, ctx, cont)
@@ -883,10 +957,34 @@ class MFlow:
         st = self.tmp()
         return self.bind(text, st if names else "_", self.unpack_m(names, st, env, cont(env)))
 
+    def simple_operand(self, e):
+        """an operand that cannot panic by itself (overflow aside): names, fields, literals, casts, + - *"""
+        k = e[0]
+        if k in ("path", "lit"):
+            return True
+        if k in ("paren", "cast", "field", "un"):
+            return self.simple_operand(e[1] if k != "un" else e[2])
+        if k == "bin" and e[1] in ("+", "-", "*"):
+            return self.simple_operand(e[2]) and self.simple_operand(e[3])
+        return False
+
     def st_mlet(self, s, env, ctx, cont):
         _, pat, ty, init = s
         if init is None:
             raise ShapeError(f"{ctx.what}: `let` without an initialiser is outside the subset")
+        # `let x = a / b;` with a divisor that is not a non-zero constant: the panic of the division is made explicit
+        core_ = init
+        while core_[0] == "paren":
+            core_ = core_[1]
+        if core_[0] == "bin" and core_[1] in ("/", "%") and id(core_) not in self.div_ok and \
+                self.simple_operand(core_[2]) and self.simple_operand(core_[3]):
+            bv = self.tr(core_[3], env, ctx)
+            if bv.const is None:
+                self.div_ok.add(id(core_))
+                self.div_keep.append(core_)
+                msg = "attempt to divide by zero" if core_[1] == "/" else \
+                    "attempt to calculate the remainder with a divisor of zero"
+                return f'(if {bv.lean} = 0 then {self.mon}.panic "{msg}" else {self.st_mlet(s, env, ctx, cont)})'
         if pat[0] == "pwild":
             name = self.tmp()
         elif pat[0] == "pbind":
@@ -909,12 +1007,14 @@ class MFlow:
         core = init[1] if init[0] == "try" else init
         cls = self.mclass(core, env, ctx)
         if init[0] == "try":
+            if cls[0] == "mo":
+                return self.mexpr_k(init, env, ctx, lambda val, t, _e: f"(let {ln} := {val}; {cont(with_val(t))})")
             if cls[0] in ("m", "mi"):
                 if cls[3]:
-                    return self.bind(cls[1], "_", self.bind(self.cache_blk, ln, cont(with_block())))
-                return self.bind(cls[1], ln, cont(with_val(cls[2])))
+                    return self.mtry(cls[1], "_", self.bind(self.cache_blk, ln, cont(with_block())), ctx)
+                return self.mtry(cls[1], ln, cont(with_val(cls[2])), ctx)
             if cls[0] == "res":
-                return self.bind(f"({self.mon}.lift {cls[1]})", ln, cont(with_val(cls[2])))
+                return self.mtry(f"({self.mon}.lift {cls[1]})", ln, cont(with_val(cls[2])), ctx)
             v = self.infallible_conversion(core, env, ctx)
             if v is not None:
                 return f"(let {ln} := {self.value(v, ctx)}; {cont(with_val(v.ty))})"
@@ -954,20 +1054,45 @@ class MFlow:
                 return f"({v.lean})"
         # an initialiser with effects / early exits inside (or a match the pure translator has no form for)
         tys = []
-        if returns_value(init) or has_node(init, ("break", "continue")):
+        if returns_value(init) or has_node(init, ("break", "continue")) or \
+                (ctx.outparams and has_node(init, ("try", "return"))):
             def kx(val, t, _env):
+                if t == ("blockref",):
+                    return self.bind(self.cache_blk, ln, cont(with_block()))
                 return f"(let {ln} := {val}; {cont(with_val(t))})"
             return self.mexpr_k(init, env, ctx, kx)
 
+        # locals assigned (or lent as `&mut`) inside the initialiser travel with its value
+        names = self.mstate_vars(init, env, ctx)
+
         def kj(val, t, _env):
             tys.append(t)
+            if names:
+                return f"(pure ({val}, {self.tuple_m(names, _env)}))"
             return f"(pure {val})"
         text = self.mexpr_k(init, env, ctx, kj)
+        if names:
+            st = self.tmp()
+
+            def unpack(inner):
+                return self.bind(text, st, self.unpack_m(names, st + ".2", env, inner))
+            first = st + ".1"
+        else:
+            st = None
+
+            def unpack(inner):
+                return None
+            first = None
+        if tys and all(t2 == ("blockref",) for t2 in tys):
+            rest = self.bind(self.cache_blk, ln, cont(with_block()))
+            return unpack(rest) if names else self.bind(text, "_", rest)
         t = tys[0]
         for t2 in tys[1:]:
             t = self.unify(t, t2, ctx.what)
         if want is not None:
             self.unify(t, want, ctx.what)
+        if names:
+            return unpack(f"(let {ln} := {first}; {cont(with_val(t))})")
         return self.bind(text, ln, cont(with_val(t)))
 
     def infallible_conversion(self, e, env, ctx):
@@ -993,12 +1118,21 @@ class MFlow:
             return self.mreturn(e[1], env, ctx)
         if k == "try":
             cls = self.mclass(e[1], env, ctx)
+            if cls[0] == "mo":
+                v, er, pm = self.tmp(), self.tmp(), self.tmp()
+                emap = cls[5]
+                return self.mo_call(cls, env, ctx, lambda r, env2: (
+                    f"(match {r} with | Res.ok {v} => {kx(v, cls[2], env2)} "
+                    f"| Res.err {er} => {self.ret_err(emap if emap is not None else er, ctx)} "
+                    f"| Res.panic {pm} => {self.mon}.panic {pm} | Res.diverged => {self.mon}.diverge)"))
             if cls[0] in ("m", "mi"):
                 t = self.tmp()
-                return self.bind(cls[1], t, kx(t, cls[2], env))
+                if cls[3]:
+                    return self.mtry(cls[1], "_", kx("()", ("blockref",), env), ctx)
+                return self.mtry(cls[1], t, kx(t, cls[2], env), ctx)
             if cls[0] == "res":
                 t = self.tmp()
-                return self.bind(f"({self.mon}.lift {cls[1]})", t, kx(t, cls[2], env))
+                return self.mtry(f"({self.mon}.lift {cls[1]})", t, kx(t, cls[2], env), ctx)
             v = self.infallible_conversion(e[1], env, ctx)
             if v is not None:
                 return kx(self.arg(v, ctx), v.ty, env)
@@ -1008,6 +1142,8 @@ class MFlow:
         cls = self.mclass(e, env, ctx)
         if cls[0] == "mi":
             t = self.tmp()
+            if cls[3]:
+                return self.bind(cls[1], "_", kx("()", ("blockref",), env))
             return self.bind(cls[1], t, kx(t, cls[2], env))
         if cls[0] != "pure":
             raise ShapeError(f"{ctx.what}: a Result used as a value is outside the subset (only `?`, `match`, or a "
@@ -1045,6 +1181,12 @@ class MFlow:
             t = self.tmp()
             text = self.mexpr_k(rhs, env, ctx, lambda val, ty, _e: f"(pure {val})")
             return self.bind(text, t, self.bind(ctx.record["setter"](lean_f, t), "_", cont(env)))
+        # a component of a local tuple with an effectful right-hand side: evaluate, then assign
+        if lhs[0] == "field" and lhs[1][0] == "path" and len(lhs[1][1]) == 1 and lhs[1][1][0] in env and \
+                env[lhs[1][1][0]][0] == "val" and op == "=" and self.is_effectful(rhs, env, ctx):
+            t = self.tmp()
+            return self.mrun([("let", ("pbind", t), None, rhs), ("expr", ("assign", "=", lhs, ("path", [t])))], env, ctx,
+                             lambda env3: cont({k2: v2 for k2, v2 in env3.items() if k2 != t}))
         # local variable with an effectful right-hand side
         if lhs[0] == "path" and len(lhs[1]) == 1 and lhs[1][0] in env and env[lhs[1][0]][0] == "val" and op == "=":
             n = lhs[1][0]
@@ -1114,7 +1256,32 @@ class MLoops:
             return btext
         return self.loop_core(env, ctx, cont, names, (cond, body), make)
 
+    def st_mfor_range(self, s, env, ctx, cont):
+        """`for _ in lo..hi { .. }`: recursion on the number of iterations"""
+        _, pat, it, body = s
+        while pat[0] == "pref":
+            pat = pat[1]
+        if pat[0] != "pwild" and not (pat[0] == "pbind" and pat[1].startswith("_")):
+            raise ShapeError(f"{ctx.what}: a counted `for` that uses its loop variable is outside the subset")
+        if it[1] is None or it[2] is None:
+            raise ShapeError(f"{ctx.what}: open ranges are outside the subset")
+        lo, hi = self.tr(it[1], env, ctx), self.tr(it[2], env, ctx)
+        self.unify(lo.ty, hi.ty, ctx.what)
+        cnt = f"({hi.lean} - {lo.lean})" if lo.const != 0 else hi.lean
+        if it[3]:
+            cnt = f"({hi.lean} + 1 - {lo.lean})"
+        names = self.mstate_vars(body, env, ctx)
+
+        def make(env_l, ctx2, again, done):
+            return self.mrun(stmts_of(body), env_l, ctx2, again)
+        return self.loop_core(env, ctx, cont, names, body, make, count=cnt if simple(cnt) else cnt)
+
     def st_mfor(self, s, env, ctx, cont):
+        if s[2][0] == "range":
+            return self.st_mfor_range(s, env, ctx, cont)
+        return self.st_mfor_struct(s, env, ctx, cont)
+
+    def st_mfor_struct(self, s, env, ctx, cont):
         """`for x in ITER { .. }` over a plain-struct iterator: `let mut it = ITER; loop { match it.next() {
         Some(x) => { .. }, None => break } }` with `next` translated as a pure function of the iterator's fields"""
         _, pat, it, body = s
@@ -1159,9 +1326,12 @@ class MLoops:
                               names, body, make)
         return f"(let {itn} := {itv.lean}; {text})"
 
-    def loop_core(self, env, ctx, cont, names, node, make):
+    def loop_core(self, env, ctx, cont, names, node, make, count=None):
+        """count=None: a fuel loop; otherwise the Lean text of the number of iterations (`for _ in lo..hi`):
+        structural recursion on that number, no fuel"""
         info = ctx.info
-        info.fuel = True
+        if count is None:
+            info.fuel = True
         idx = len(info.aux)
         info.aux.append(None)
         name = f"{info.name}_loop{idx + 1}"
@@ -1171,7 +1341,7 @@ class MLoops:
         for n in used:
             if n in env and env[n][0] == "selfopt":
                 raise ShapeError(f"{ctx.what}: a `ref` binding is used inside a loop (outside the subset)")
-        wrap = returns_value(node)
+        wrap = returns_value(node) or bool(ctx.outparams and has_node(node, ("try", "return")))
         binders = ""
         args = ""
         if ctx.record is not None:
@@ -1181,33 +1351,40 @@ class MLoops:
             binders += f" ({env[n][1]} : {self.lean_ty_m(env[n], ctx)})"
             args += f" {env[n][1]}"
         sig = " × ".join(self.lean_ty_m(env[n], ctx) for n in names) if names else "Unit"
-        rho = self.lean_type(info.ret, ctx.what)
+        rho = self.raw_ret_lean(info, ctx.what)
         out_ty = f"Except ({rho}) ({sig})" if wrap else f"({sig})"
 
         def done(env2):
             t = self.tuple_m(names, env2)
             return f"(pure (Except.ok {t}))" if wrap else f"(pure {t})"
 
+        rec = "fuel" if count is None else "_n"
+
         def again(env2):
-            return f"({name}{args} fuel {self.tuple_m(names, env2)})"
+            return f"({name}{args} {rec} {self.tuple_m(names, env2)})"
         ctx2 = copy.copy(ctx)
         ctx2.loop = dict(brk=done, cont=again)
         ctx2.loop_depth = ctx.loop_depth + 1
         if wrap:
-            ctx2.ret_ok = lambda t: f"(pure (Except.error {t}))"
+            ctx2.loop_wrap = True
         env_l = dict(env)
         btext = make(env_l, ctx2, again, done)
         if self.modifies_self(node, env, ctx) and ctx.record is not None:
             btext = self.refetch(ctx, btext)
         pat = "_" if not names else (env[names[0]][1] if len(names) == 1 else "(" + ", ".join(env[n][1] for n in names) + ")")
         header = f"def {name}{binders} : Nat → ({sig}) → {self.mon} ({out_ty})"
-        info.aux[idx] = (header, (pat, btext), len(info.aux_done))
+        zero = None
+        if count is not None:
+            if "fuel" in re.findall(r"[A-Za-z_][A-Za-z0-9_']*", btext):
+                raise ShapeError(f"{ctx.what}: a fuel loop or a callee with fuel inside a counted `for` is outside the subset")
+            zero = (pat, done(env_l))
+        info.aux[idx] = (header, (pat, btext), len(info.aux_done), zero, rec)
         info.aux_done.append(idx)
-        call = f"({name}{args} fuel {self.tuple_m(names, env)})"
+        call = f"({name}{args} {'fuel' if count is None else count} {self.tuple_m(names, env)})"
         st = self.tmp()
         if wrap:
             r = self.tmp()
-            return self.bind(call, r, f"(match {r} with | Except.error {st} => {ctx.ret_ok(st)} | Except.ok {st} => "
+            return self.bind(call, r, f"(match {r} with | Except.error {st} => {ctx.ret_raw(st)} | Except.ok {st} => "
                                       f"{self.unpack_m(names, st, env, cont(env))})")
         return self.bind(call, st if names else "_", self.unpack_m(names, st, env, cont(env)))
 
@@ -1263,6 +1440,17 @@ class MFns:
             ty = self.conv_type(pty, f"{what}: parameter {pn}", decl.impl)
             env[pn] = ("val", lname(pn), ty)
             plist.append((lname(pn), ty))
+            if pty[0] == "tref" and len(pty) == 3:
+                if ty[0] == "tuple" and all(self.res(x)[0] in ("int", "usize", "nt") for x in ty[1]):
+                    ctx.outparams.append((pn, lname(pn)))
+                elif ty[0] == "bytes":
+                    ctx.outbufs.append((pn, lname(pn)))
+                else:
+                    raise ShapeError(f"{what}: `&mut` parameter {pn} of this type is outside the subset")
+        info.outparams = [(pn, env[pn][2]) for pn, _l in ctx.outparams]
+        info.outbufs = [pn for pn, _l in ctx.outbufs]
+        info.param_names = [pn for pn, _t in params if not (lambda t: t[0] == "ty" and t[1] == CACHE_PARAM_TYPE)(
+            (lambda t: t[1] if t[0] == "tref" else t)(_t))]
         body = parse_fn_body(decl, self.items)
         doc = f"`{(decl.impl + '::') if decl.impl else ''}{decl.name}` ({decl.where})"
         if not monadic:
@@ -1288,7 +1476,9 @@ class MFns:
             if text.startswith("(") and text.endswith(")") and _balanced(text[1:-1]):
                 text = text[1:-1]
             info.body = self.resolve_placeholders(text, what)
-            info.aux = [(h, (p, self.resolve_placeholders(b, what)), rank) for h, (p, b), rank in info.aux]
+            info.aux = [(a[0], (a[1][0], self.resolve_placeholders(a[1][1], what)), a[2],
+                         None if a[3] is None else (a[3][0], self.resolve_placeholders(a[3][1], what)), a[4])
+                        for a in info.aux]
             info.params = ([("fuel", ("fuelnat",))] if info.fuel else []) + plist
             info.doc = doc
         self.m_in_progress.discard(key)
@@ -1298,6 +1488,17 @@ class MFns:
 
     def self_is_mut(self, decl, self_kind):
         return bool(self_kind) and "mut" in self_kind
+
+    def raw_ret_lean(self, info, what):
+        """Lean type of what the computation yields (with the `&mut` parameters it hands back)"""
+        rt = self.lean_type(info.ret, what)
+        if info.outbufs:
+            rt = "(" + " × ".join([rt] + ["List UInt8"] * len(info.outbufs)) + ")"
+        if info.outparams:
+            ps = " × ".join(self.lean_type(t, what) for _n, t in info.outparams)
+            inner = rt if " " not in rt or rt.startswith("(") else f"({rt})"
+            rt = f"(({ps}) × Res {inner})"
+        return rt
 
     def lean_type(self, t, what):
         t2 = self.res(t) if t[0] != "record" and t[0] != "fuelnat" else t
@@ -1419,7 +1620,7 @@ def pretty_m(s, base=2):
             out.append(m.group(0).rstrip() + "\n" + " " * (base + min(depth, 30)))
             i = m.end()
             continue
-        if s.startswith(" | ", i) and (s[i + 3:i + 4].isalpha() or s[i + 3:i + 4] == "(") and "=>" in s[i:i + 80]:
+        if s.startswith(" | ", i) and (s[i + 3:i + 4].isalpha() or s[i + 3:i + 4] in ("(", "_")) and "=>" in s[i:i + 80]:
             out.append("\n" + " " * (base + min(depth, 30)) + "| ")
             i += 3
             continue
@@ -1430,6 +1631,15 @@ def pretty_m(s, base=2):
         out.append(c)
         i += 1
     return "".join(out)
+
+
+def render_loop(T, info, a):
+    header, (pat, body), _rank, zero, rec = a
+    if zero is None:
+        return (f"/-- A loop of {info.doc}; `fuel` bounds the number of iterations. -/\n{header}\n"
+                f"  | 0, _ => {T.mon}.diverge\n  | fuel + 1, {pat} =>\n    {pretty_m(body, 4)}\n")
+    return (f"/-- A counted loop of {info.doc}, by recursion on the number of iterations left. -/\n{header}\n"
+            f"  | 0, {zero[0]} => {zero[1]}\n  | {rec} + 1, {pat} =>\n    {pretty_m(body, 4)}\n")
 
 
 def render_m(T):
@@ -1451,10 +1661,9 @@ def render_m(T):
     for key in T.morder:
         info = T.mdone[key]
         ps = "".join(f" ({n} : {T.lean_type(t, info.name)})" for n, t in info.params)
-        for header, (pat, body), _rank in sorted(info.aux, key=lambda a: a[2]):
-            lines.append(f"/-- A loop of {info.doc}; `fuel` bounds the number of iterations. -/\n{header}\n"
-                         f"  | 0, _ => {T.mon}.diverge\n  | fuel + 1, {pat} =>\n    {pretty_m(body, 4)}\n")
-        rt = T.lean_type(info.ret, info.name)
+        for a in sorted(info.aux, key=lambda a: a[2]):
+            lines.append(render_loop(T, info, a))
+        rt = T.lean_type(info.ret, info.name) if info.pure else T.raw_ret_lean(info, info.name)
         if not info.pure:
             rt = f"{T.mon} ({rt})" if " " in rt else f"{T.mon} {rt}"
         lines.append(f"/-- {info.doc}. -/\ndef {info.name}{ps} : {rt} :=\n  {pretty_m(info.body) if not info.pure else pretty(info.body)}\n")
@@ -1470,6 +1679,6 @@ def generate_m(read_src, functions=None):
     for key in (M_FUNCTIONS if functions is None else functions):
         T.translate_m(key)
     text = render_m(T)
-    summary = {("::".join(str(x) for x in k)): [T.mdone[k].name, T.mdone[k].body, [b for _h, (_p, b), _r in T.mdone[k].aux]]
+    summary = {("::".join(str(x) for x in k)): [T.mdone[k].name, T.mdone[k].body, [a[1][1] for a in T.mdone[k].aux]]
                for k in T.morder}
     return text, summary
